@@ -53,12 +53,19 @@ func c15One(c *vf.Ctx, sub string, i int, r *rand.Rand, ids []Ident) {
 	extraAnn := r.Intn(4)
 	nlist := r.Intn(4)
 	delay := []int{0, 200}[r.Intn(2)]
+	explicitKind := []string{"SyncAdChain", "SyncAdChain", "SyncEntries", "SyncOneEntry", "SyncHAMTEntries"}[r.Intn(5)]
+	if announced {
+		explicitKind = ""
+	}
 	maxAsync := 0
 	if r.Intn(3) == 0 {
 		maxAsync = 1 + r.Intn(5)/4 // mostly 1: the interesting limit
 	}
+	if explicitKind != "" && explicitKind != "SyncAdChain" && (point == "stop.read" || point == "event.emit.begin" || point == "dist.forward") {
+		point = "front" // entries syncs have no stop point and emit no notification
+	}
 	desc := fmt.Sprintf("sync=%s close-starts-at=%s closers=%d extra-announcements=%d listeners=%d tap-delay=%d/1000 max-async=%d",
-		map[bool]string{true: "announce-triggered", false: "explicit"}[announced], point, closers, extraAnn, nlist, delay, maxAsync)
+		map[bool]string{true: "announce-triggered", false: "explicit " + explicitKind}[announced], point, closers, extraAnn, nlist, delay, maxAsync)
 	c.Cur(sub, i, desc)
 	id := ids[i%len(ids)]
 	pst := NewStore()
@@ -74,6 +81,11 @@ func c15One(c *vf.Ctx, sub string, i int, r *rand.Rand, ids []Ident) {
 	}
 	defer front.Close()
 	front.Pub.SetRoot(chain.Head())
+	entChain, err := NewEntryChain(r, pst, 3, linkProto(multihash.SHA2_256, -1))
+	if err != nil {
+		c.Fail(sub, i, "harness-env", err.Error(), nil)
+		return
+	}
 	// a second publisher for the racing announcements
 	id2 := ids[(i+5)%len(ids)]
 	pst2 := NewStore()
@@ -195,8 +207,18 @@ func c15One(c *vf.Ctx, sub string, i int, r *rand.Rand, ids []Ident) {
 		go func() {
 			defer close(syncDone)
 			syncCall = tl.mark("client.explicit.call", id.ID, cid.Undef)
-			_, syncErr = s.SyncAdChain(context.Background(), front.AddrInfo())
+			switch explicitKind {
+			case "SyncEntries":
+				syncErr = s.SyncEntries(context.Background(), front.AddrInfo(), entChain.Head())
+			case "SyncOneEntry":
+				syncErr = s.SyncOneEntry(context.Background(), front.AddrInfo(), entChain.Head())
+			case "SyncHAMTEntries":
+				syncErr = s.SyncHAMTEntries(context.Background(), front.AddrInfo(), entChain.Head())
+			default:
+				_, syncErr = s.SyncAdChain(context.Background(), front.AddrInfo())
+			}
 			syncRet = tl.mark("client.explicit.ret", id.ID, cid.Undef)
+			c.Inc("explicit_running_" + explicitKind)
 		}()
 	}
 	if reached != nil {
@@ -359,11 +381,18 @@ func c15One(c *vf.Ctx, sub string, i int, r *rand.Rand, ids []Ident) {
 	}
 	pi := front.AddrInfo()
 	var lateCancel context.CancelFunc
+	mustErr := func(name string, err error) {
+		if err == nil {
+			c.Fail(sub, i, "sync-entry-point-succeeds-on-closed-subscriber:"+name, name+" returned nil after Close had returned", wit())
+		}
+	}
+	// (blocks the closed subscriber has never fetched, so that a sync that is wrongly performed leaves traces)
+	fresh, _ := NewEntryChain(r, pst, 2, linkProto(multihash.SHA2_256, -1))
 	calls := []call{
-		{"SyncAdChain", func() { _, _ = s.SyncAdChain(context.Background(), pi) }},
-		{"SyncEntries", func() { _ = s.SyncEntries(context.Background(), pi, chain.Head()) }},
-		{"SyncOneEntry", func() { _ = s.SyncOneEntry(context.Background(), pi, chain.Head()) }},
-		{"SyncHAMTEntries", func() { _ = s.SyncHAMTEntries(context.Background(), pi, chain.Head()) }},
+		{"SyncAdChain", func() { _, err := s.SyncAdChain(context.Background(), pi); mustErr("SyncAdChain", err) }},
+		{"SyncEntries", func() { mustErr("SyncEntries", s.SyncEntries(context.Background(), pi, fresh.Head())) }},
+		{"SyncOneEntry", func() { mustErr("SyncOneEntry", s.SyncOneEntry(context.Background(), pi, fresh.Head())) }},
+		{"SyncHAMTEntries", func() { mustErr("SyncHAMTEntries", s.SyncHAMTEntries(context.Background(), pi, fresh.Head())) }},
 		{"Announce", func() { _ = s.Announce(context.Background(), chain.Cids[0], pi) }},
 		{"GetLatestSync", func() { _ = s.GetLatestSync(id.ID) }},
 		{"SetLatestSync", func() { _ = s.SetLatestSync(id.ID, chain.Head()) }},
@@ -408,6 +437,15 @@ func c15One(c *vf.Ctx, sub string, i int, r *rand.Rand, ids []Ident) {
 			return
 		}
 	}
+	// calls made on the closed subscriber must not have caused hook calls or store writes either
+	actMu.Lock()
+	for _, a := range acts {
+		if a.T > tc && (strings.HasPrefix(a.What, "hook") || strings.HasPrefix(a.What, "store-write")) {
+			c.Fail(sub, i, "activity-after-close-returned:"+strings.Fields(a.What)[0], fmt.Sprintf("%s at %d (caused by a call on the closed subscriber), Close returned at %d", a.What, a.T, tc), wit())
+			break
+		}
+	}
+	actMu.Unlock()
 	// (e) no goroutine started by the subscriber remains
 	var left []string
 	for try := 0; try < 200; try++ {
